@@ -40,7 +40,7 @@ def verify_one(c: Contract, reg: Registry, tier="quick", strict=False, only=None
             undo = patch()
         run = run_body(c, reg)
     except TargetMissing as e:
-        out["error"], out["error_kind"] = str(e), "missing"
+        out["error"], out["error_kind"] = str(e), ("missing-optional" if c.optional and patch is None else "missing")
         return out
     finally:
         if undo is not None:
